@@ -30,7 +30,7 @@ func runC02(x *mc.X) {
 	validators := mc.Pick(x, "stored.validators", []string{"etag", "lm", "both", "none"})
 	elapsed := mc.Pick(x, "elapsed", []int64{2, 10, 20})
 	reqDir := mc.Pick(x, "req.directive", c02ReqDirs)
-	answerKind := mc.Pick(x, "origin.answer", []string{"304", "304+fields", "200", "500", "503", "error", "304+no-cache"})
+	answerKind := mc.Pick(x, "origin.answer", []string{"304", "304+fields", "200", "500", "503", "error", "304+no-cache", "200-same-etag"})
 	// the client's own preconditions: an entity-tag the origin does not have, one that the origin considers current
 	// (a copy the client holds, which says nothing about the copy this cache holds), an old date
 	clientCond := mc.Pick(x, "client.preconditions", []string{"", "if-none-match other", "if-none-match current", "if-modified-since old"})
@@ -90,6 +90,8 @@ func runC02(x *mc.X) {
 			return o.Respond(c, RS{Status: 304, NoTok: true, H: hh}), nil
 		case "200":
 			return o.Respond(c, RS{Status: 200, H: H("Cache-Control", "max-age=10", "ETag", `"etag-v2"`)}), nil
+		case "200-same-etag": // a full reply that repeats the stored entity-tag (weak tags allow other bytes): it is the origin's answer all the same
+			return o.Respond(c, RS{Status: 200, H: H("Cache-Control", "max-age=10", "ETag", c02ETag)}), nil
 		case "500":
 			return o.Respond(c, RS{Status: 500}), nil
 		case "503":
